@@ -486,7 +486,7 @@ class Renderer:
                 k = op.place[1]
                 cont = [c for c in defs if c.kind == 'objstm' and c.val == k][0]
                 idx = [n for n, _ in containers[k][0]].index(op.num)
-                ents.append((op.num, 0, 's', cont.num, idx))
+                ents.append((op.num, 0, 's', rev.opts.get('bad_container', cont.num), idx))
         for op in frees:
             ents.append((op.num, op.gen, 'f', 0, 0))
             self.mentioned.add((op.num, op.gen))
@@ -518,7 +518,7 @@ class Renderer:
             in_tab.append((rev.xid[0], rev.xid[1], 'n', xoff, 0))
             in_tab.sort(key=lambda e: e[0])
             self.sect_off.append(len(self.b))
-            self.xref_table(in_tab, None, root, prev, xoff, size, rev)
+            self.xref_table(in_tab, None, root, prev, rev.opts.get('xrefstm_override', xoff), size, rev)
         # startxref block (garbage for every object / xref parser)
         sx = self.sect_off[-1]
         if rev.opts.get('sx_override') is not None:
@@ -913,3 +913,77 @@ def mutate_prev(rng, history, what):
         return 'other'
     rev.prev_override = ('flen', -1)
     return 'other'
+
+
+# ------------------------------------------------------------------ tiny hand-made cases (short enough for pv's vm_compute cross-check of the extraction)
+def tiny_cases():
+    out = []
+
+    def mk(objs, sections, kind='wf', exp=None, root='1.0', probes=None):
+        """objs: [(num, gen, pdf text, canonical text)], sections: [(entries [(num,gen,'n'|'f',target num or 0)], root text or None, prev index/abs/None)]"""
+        b = bytearray(b'%PDF-1.4\n')
+        items = []
+        offs = {}
+        seq = []
+        secoff = []
+        oi = 0
+        for sec_i, (nobj, ents, rt, pv) in enumerate(sections):
+            for (num, gen, txt, can) in objs[oi:oi + nobj]:
+                offs[(num, gen)] = len(b)
+                seq.append(['O', len(b), '%d.%d;%s' % (num, gen, can)])
+                b += b'%d %d obj %s endobj\n' % (num, gen, txt)
+            oi += nobj
+            so = len(b)
+            secoff.append(so)
+            b += b'xref\n'
+            et = []
+            for (num, gen, k, tgt) in ents:
+                o = offs.get((num, tgt), 0) if k == 'n' else 0
+                if k == 'n' and isinstance(tgt, tuple):
+                    o = offs[tgt]
+                b += b'%d 1\n%010d %05d %s \n' % (num, o, gen, k.encode())
+                et.append('%d.%d.%s.%d' % (num, gen, k, o))
+            p = None
+            if pv is not None:
+                p = secoff[pv[1]] if pv[0] == 'sec' else pv[1]
+            b += b'trailer<<' + (b'/Root %s' % rt if rt else b'') + (b'/Prev %d' % p if p is not None else b'') + b'>>\n'
+            rcan = '-'
+            if rt:
+                w = rt.split()
+                rcan = 'R%s.%s' % (w[0].decode(), w[1].decode()) if rt.endswith(b'R') else 'i' + rt.decode()
+            seq.append(['X', so, '%s;%s;%s;-' % (lst(et), rcan, opt(p))])
+            g = len(b)
+            b += b'startxref\n%d\n%%%%EOF\n' % so
+            seq.append(['G', g, ''])
+        flen = len(b)
+        toks = []
+        for i, (k, off, rest) in enumerate(seq):
+            nx = seq[i + 1][1] if i + 1 < len(seq) else flen
+            body = '%s;%%d;%d%s' % (k, nx, (';' + rest) if rest else '')
+            toks.append(body % off)
+            if i == 0 and off != 0:
+                toks.append(body % 0)
+        sx = find_startxref(bytes(b))
+        pr = probes or sorted(set((n, g) for (n, g, _, _) in objs) | set((n, g) for _, es, _, _ in sections for (n, g, _, _) in es))
+        spec = '~'.join([kind, '-', root if kind == 'wf' else '-', '-', lst('%s=%s' % kv for kv in (exp or [])) if kind == 'wf' else '-'])
+        out.append(' '.join(['L', str(flen), '1', opt(sx), lst('%d.%d' % q for q in pr), spec, bytes(b).hex()] + toks))
+
+    R = b'1 0 R'
+    mk([(1, 0, b'7', 'i7')], [(1, [(1, 0, 'n', 0)], R, None)], exp=[('1.0', 'i7')])
+    mk([(1, 0, b'[/A (x)]', 'A(m41,s78)')], [(1, [(1, 0, 'n', 0)], R, None)], exp=[('1.0', 'A(m41,s78)')])
+    mk([(1, 0, b'<</K 2 0 R>>', 'D(4b:R2.0)'), (2, 0, b'true', 't')], [(2, [(1, 0, 'n', 0), (2, 0, 'n', 0)], R, None)],
+       exp=[('1.0', 'D(4b:R2.0)'), ('2.0', 't')])
+    # freed in the same table / identity mismatches / cycle / out of range
+    mk([(1, 0, b'7', 'i7')], [(1, [(1, 0, 'n', 0), (2, 0, 'f', 0)], R, None)], exp=[('1.0', 'i7')])
+    mk([(1, 0, b'7', 'i7')], [(1, [(1, 1, 'n', (1, 0))], R, None)], kind='idmis')
+    mk([(2, 0, b'7', 'i7')], [(1, [(1, 0, 'n', (2, 0))], R, None)], kind='idmis')
+    mk([(1, 0, b'7', 'i7')], [(1, [(1, 0, 'n', 0)], R, ('sec', 0))], kind='cycle')
+    mk([(1, 0, b'7', 'i7')], [(1, [(1, 0, 'n', 0)], R, ('abs', 2 ** 63 - 1))], kind='oob')
+    mk([(1, 0, b'7', 'i7')], [(1, [(1, 0, 'n', 0)], R, ('abs', 3))], kind='other')
+    mk([(1, 0, b'7', 'i7')], [(1, [(1, 0, 'n', 0)], None, None)], kind='other')
+    mk([(1, 0, b'7', 'i7')], [(1, [(1, 0, 'n', 0)], b'5', None)], kind='other')
+    # two revisions: redefinition / free with incremented generation
+    mk([(1, 0, b'7', 'i7'), (1, 0, b'8', 'i8')], [(1, [(1, 0, 'n', 0)], R, None), (1, [(1, 0, 'n', 0)], R, ('sec', 0))], exp=[('1.0', 'i8')])
+    mk([(1, 0, b'7', 'i7'), (2, 0, b'8', 'i8')], [(2, [(1, 0, 'n', 0), (2, 0, 'n', 0)], R, None), (0, [(2, 1, 'f', 0)], R, ('sec', 0))],
+       exp=[('1.0', 'i7')])
+    return out
